@@ -173,4 +173,24 @@ theorem syncLoop_spec {H cfg vals active} (ok : SampleOK H cfg vals active) (see
         exact this
     · simp only [hsz, not_false_eq_true, if_true]
       simp [toArr]
+
+theorem computeShufflingEpoch_epoch {H : ByteArray → ByteArray} {cfg : Cfg} (ok : CfgOK cfg) (vals : Array Val)
+    (mixes : Nat → ByteArray) (e : Nat) (hv : vals.size < 2 ^ 63) (se : ShufflingEpoch)
+    (h : computeShufflingEpoch H cfg vals mixes e = .ok se) : se.epoch = e := by
+  have := newShufflingEpoch_ok (H := H) ok vals (getSeed H cfg mixes e DOMAIN_BEACON_ATTESTER) e hv
+  unfold computeShufflingEpoch at h
+  rw [this] at h
+  injection h with h
+  rw [← h]
+
+
+/-- the standing assumptions of the sampling theorems hold for the active set of any epoch with an active validator -/
+theorem sampleOK_active {H : ByteArray → ByteArray} (hH : ∀ x, (H x).size = 32) {cfg : Cfg}
+    (hsrc : cfg.SHUFFLE_ROUND_COUNT ≤ 255) (vals : Array Val) (hv : vals.size ≤ 2 ^ 40) (e : Nat)
+    (hne : 0 < (activeIndices vals e).size) : SampleOK H cfg vals (activeIndices vals e) :=
+  ⟨hH, hsrc, hne, by have := size_activeIndices_le vals e; omega, fun k hk =>
+    ((mem_activeIndices vals e _).mp (by
+      rw [← Array.getElem_toList (h := by simpa using hk)]; exact List.getElem_mem _)).1⟩
+
+
 end Zrnt.Proofs.Committees
